@@ -231,7 +231,8 @@ def run(text, solver, timeout_s, workdir, tag='q', per_query_ms=None, decimal=Fa
     wall = time.time() - t0
     n_expected = text.count('(check-sat)')
     answers = []
-    if '(error' in out:
+    out_chk = '\n'.join(l for l in out.split('\n') if 'model is not available' not in l)
+    if '(error' in out_chk:
         m = re.search(r'\(error[^\n]*', out)
         answers = ['error:' + m.group(0)[:200]] * n_expected
     else:
